@@ -343,20 +343,22 @@ fn schedules(ctx: &Ctx, d: &dyn Dec, input: &'static str, data: &[u8], pull_rows
     // every single split point (stride for long inputs)
     let stride = (n / 3000).max(1);
     let points: Vec<usize> = (1..n).step_by(stride).collect();
-    let label_s: &str = if input == "valid" { "s" } else { "ts" };
+    let (label_s, label_b, label_m): (&str, &str, &str) = match input {
+        "valid" => ("s", "b1", "m"),
+        "truncated" => ("ts", "tb1", "tm"),
+        _ => ("ms", "mb1", "mm"),
+    };
     for j in ctx.sweep(label_s, points.len()) {
         ctx.set_at(label_s, j as u64);
         exec(ctx, d, "split", input, data, &rf, &[points[j]])?;
     }
     ctx.clear_at(label_s);
     // one byte at a time
-    let label_b: &str = if input == "valid" { "b1" } else { "tb1" };
     if n <= 6000 && ctx.part(label_b) {
         let cuts: Vec<usize> = (1..n).collect();
         exec(ctx, d, "bytewise", input, data, &rf, &cuts)?;
     }
     // tape-chosen multi-splits, with empty chunks (repeated cut points) where they are no-ops
-    let label_m: &str = if input == "valid" { "m" } else { "tm" };
     if n >= 2 && ctx.part(label_m) {
         let rounds = 1 + ctx.below(6, "multi.rounds");
         for _ in 0..rounds {
@@ -413,7 +415,74 @@ fn run_format(ctx: &Ctx, f: &dyn Fmt, d: &dyn Dec, truncation_is_invalid: bool) 
         let cut = 1 + ctx.below(data.len() - 1, "trunc.at");
         schedules(ctx, d, "truncated", &data[..cut], None)?;
     }
+    // text formats: the same bytes after a few text-level edits (short rows, stray quotes and delimiters, damaged
+    // escapes): valid or not, the outcome must not depend on the chunking
+    if matches!(d.name(), "csv.decoder" | "json.decoder") && data.len() > 2 && ctx.part("mangled") {
+        let m = mangle(ctx, &data, d.name() == "csv.decoder");
+        ctx.ev_bytes("mangled", &m);
+        if m.len() > 1 {
+            schedules(ctx, d, "mangled", &m, None)?;
+        }
+    }
     Ok(())
+}
+
+/// 1-3 text-level edits of a CSV / JSON document.
+fn mangle(ctx: &Ctx, data: &[u8], csv: bool) -> Vec<u8> {
+    let mut m = data.to_vec();
+    const SPECIAL: &[u8] = b",;\t|\"\n\r\\+-u{}[]: 0eE.";
+    for _ in 0..1 + ctx.below(3, "mangle.n") {
+        if m.len() < 2 {
+            break;
+        }
+        match ctx.draw(6, "mangle.kind") {
+            // a row loses its tail: from some delimiter (CSV) / byte to the end of the line
+            0 | 1 => {
+                let starts: Vec<usize> = std::iter::once(0).chain(m.iter().enumerate().filter(|(_, b)| **b == b'\n').map(|(i, _)| i + 1)).filter(|s| *s < m.len()).collect();
+                let s = starts[ctx.below(starts.len(), "mangle.line")];
+                let e = m[s..].iter().position(|b| *b == b'\n' || *b == b'\r').map(|p| s + p).unwrap_or(m.len());
+                let cands: Vec<usize> = (s..e).filter(|i| !csv || matches!(m[*i], b',' | b';' | b'\t' | b'|')).collect();
+                if !cands.is_empty() {
+                    let from = cands[ctx.below(cands.len(), "mangle.from")];
+                    m.drain(from..e);
+                    ctx.probe("mangle.short_row");
+                }
+            }
+            // a damaged escape: one of the four digits after a `\u` (JSON), inserted if the text has none
+            2 if !csv => {
+                let esc: Vec<usize> = m.windows(2).enumerate().filter(|(_, w)| w == b"\\u").map(|(i, _)| i).collect();
+                let bad = *ctx.pick(&[b'+', b'-', b' ', b'g', b'"'], "mangle.hex");
+                if let Some(i) = (!esc.is_empty()).then(|| esc[ctx.below(esc.len(), "mangle.esc")]) {
+                    let at = i + 2 + ctx.below(4, "mangle.digit");
+                    if at < m.len() {
+                        m[at] = bad;
+                    }
+                } else {
+                    let quotes: Vec<usize> = m.iter().enumerate().filter(|(_, b)| **b == b'"').map(|(i, _)| i + 1).collect();
+                    if !quotes.is_empty() {
+                        let at = quotes[ctx.below(quotes.len(), "mangle.quote")];
+                        let mut seq = b"\\u0041".to_vec();
+                        seq[2 + ctx.below(4, "mangle.digit")] = bad;
+                        m.splice(at..at, seq);
+                    }
+                }
+                ctx.probe("mangle.escape");
+            }
+            2 | 3 => {
+                let at = ctx.below(m.len(), "mangle.at");
+                m[at] = SPECIAL[ctx.below(SPECIAL.len(), "mangle.byte")];
+            }
+            4 => {
+                let at = ctx.below(m.len(), "mangle.at");
+                m.remove(at);
+            }
+            _ => {
+                let at = ctx.below(m.len() + 1, "mangle.at");
+                m.insert(at, SPECIAL[ctx.below(SPECIAL.len(), "mangle.byte")]);
+            }
+        }
+    }
+    m
 }
 
 fn csv(ctx: &Ctx) -> R {
